@@ -43,6 +43,9 @@ type scenario struct {
 	Action string        // own | linger | quick | deaf
 	Delta  time.Duration // the action's own completion instant relative to the deadline
 	ResErr bool          // the action's own result is an error
+	// StopErr: once it has seen its stop signal the action winds down with an error of its own ("interrupted") instead
+	// of a cancelled / timeout kind: the runner must still report the timeout kind
+	StopErr bool
 	Parent string        // live | pre | at:<offset>
 	POff   time.Duration
 	// parallelise
@@ -157,6 +160,9 @@ func bodyStop(x *gosim.Exec, w *world, sc scenario) {
 		case "own": // the well-behaved shape: selects on {stop signal, own completion timer}
 			if sel2(x, "action: select{stop, own timer}", stop, time.After(time.Until(w.t0.Add(T+sc.Delta)))) == 0 {
 				w.sawSignal = true
+				if sc.StopErr {
+					return errInterrupted
+				}
 				return commonerrors.ErrCancelled
 			}
 			w.ownResult = true
@@ -166,6 +172,9 @@ func bodyStop(x *gosim.Exec, w *world, sc scenario) {
 			<-stop
 			w.sawSignal = true
 			time.Sleep(sc.Delta)
+			if sc.StopErr {
+				return errInterrupted
+			}
 			return commonerrors.ErrCancelled
 		default: // quick: finishes of its own accord before the deadline, never looks at the signal
 			time.Sleep(time.Until(w.t0.Add(T + sc.Delta)))
@@ -232,6 +241,8 @@ func (w *world) checkRunner(sc scenario) {
 	}
 }
 
+var errInterrupted = errors.New("interrupted before completion")
+
 func kind(err error) string {
 	switch {
 	case err == nil:
@@ -268,6 +279,9 @@ func bodyCtx(x *gosim.Exec, w *world, sc scenario) {
 		case "own":
 			if sel2(x, "action: select{ctx.Done, own timer}", ctx.Done(), time.After(time.Until(w.t0.Add(T+sc.Delta)))) == 0 {
 				w.sawSignal = true
+				if sc.StopErr {
+					return errInterrupted
+				}
 				return commonerrors.ConvertContextError(ctx.Err())
 			}
 			w.ownResult = true
@@ -277,6 +291,9 @@ func bodyCtx(x *gosim.Exec, w *world, sc scenario) {
 			<-ctx.Done()
 			w.sawSignal = true
 			time.Sleep(sc.Delta)
+			if sc.StopErr {
+				return errInterrupted
+			}
 			return commonerrors.ConvertContextError(ctx.Err())
 		default: // deaf: ignores its context, finishes at T+delta
 			time.Sleep(time.Until(w.t0.Add(T + sc.Delta)))
@@ -513,6 +530,14 @@ func scenarios() []scenario {
 				}
 			}
 			out = append(out, scenario{Name: fmt.Sprintf("%s/linger/1ms/parent=%s", fam, p.n), Family: fam, Action: "linger", Delta: time.Millisecond, Parent: strings.SplitN(p.n, "-", 2)[0], POff: p.off, Bound: 2})
+		}
+	}
+	// the same with an action that reports "interrupted" once stopped (actions that look at their signal only)
+	for _, sc := range append([]scenario(nil), out...) {
+		if (sc.Action == "own" || sc.Action == "linger") && !sc.ResErr && (sc.Parent == "" || sc.Parent == "live") {
+			sc.Name += "/interrupted-on-stop"
+			sc.StopErr = true
+			out = append(out, sc)
 		}
 	}
 	for i := range out {
